@@ -388,6 +388,7 @@ def main(argv):
         seed = int(os.environ.get("VERIF_SEED", "1"))
     except ValueError:
         seed = 1
+    seed = abs(seed) % (2 ** 31 - 1000)      # every consumer (TLC -seed, the drivers' u64, Python's Random) accepts this range
     if prop not in props.PIPELINES:
         print("unknown property", prop)
         return 2
